@@ -492,6 +492,9 @@ impl World {
                     use_compat_address: false,
                 })
             }
+            // ibcbad — an IbcRelay action that passes its stateless checks and fails execution (non-fatally
+            // after Blackburn): everything its transaction did before it must be rolled back
+            "ibcbad" => Action::Ibc(super::tests_app::bad_ibc_relay()),
             // pairs,<add|del>,<P1+P2+…>
             "pairs" => {
                 let set: indexmap::IndexSet<astria_core::oracles::price_feed::types::v2::CurrencyPair> =
@@ -1375,7 +1378,16 @@ impl Gen {
                         format!("btransfer,{other},{},{amt},{fa},{id},{},{}", b.0, self.rng.range(1, 9), self.rng.pick(&[1usize, 7])),
                     )
                 }
-                75..=84 => {
+                75..=77 => {
+                    let relayer = if self.view.relayers.is_empty() || (adversarial && self.rng.chance(30)) {
+                        user.clone()
+                    } else {
+                        let i = self.rng.below(self.view.relayers.len() as u64) as usize;
+                        self.view.relayers[i].clone()
+                    };
+                    (relayer, 4, "ibcbad".to_string())
+                }
+                78..=84 => {
                     let remove = self.rng.chance(35);
                     let pool = ["va", "vb", "vc", "v0", "v1", "v2"];
                     let cand: Vec<&&str> = pool
@@ -1420,7 +1432,12 @@ impl Gen {
                 _ => 5,
             }
         };
-        let mut acts = vec![first];
+        let mut acts = if first == "ibcbad" && self.rng.chance(70) {
+            let amt = self.amount(false);
+            vec![format!("transfer,{},nria,{amt},nria", self.rng.pick(&RECIPIENTS)), first]
+        } else {
+            vec![first]
+        };
         for _ in 1..n_actions {
             let g = if adversarial && self.rng.chance(15) { None } else { Some(group) };
             acts.push(self.action(g, adversarial).2);
@@ -1453,6 +1470,40 @@ impl Gen {
         } else {
             ops.push(format!("tx {signer} {nonce} {acts}"));
         }
+    }
+
+    /// A withdrawal event id consumed between the construction and the execution of another
+    /// carrier of the same id (the second one must fail at execution), any pair of carrier kinds.
+    fn double_spend_ops(&mut self, ops: &mut Vec<String>) {
+        if self.view.bridges.is_empty() {
+            return;
+        }
+        let b = self.bridge(false);
+        let wd = b.3.clone();
+        if !SIGNERS.contains(&wd.as_str()) {
+            return;
+        }
+        let others: Vec<String> = self.view.bridges.iter().filter(|x| x.0 != b.0 && x.1 == b.1).map(|x| x.0.clone()).collect();
+        let id = self.event_id(false);
+        let fa = self.fee_asset(false);
+        let mut carrier = |g: &mut Self| -> String {
+            let amt = g.amount(false);
+            match g.rng.below(3) {
+                0 => format!("unlock,{},{},{amt},{fa},{id},{}", g.rng.pick(&["a2", "a3", "r0"]), b.0, g.rng.range(1, 9)),
+                1 if !others.is_empty() => {
+                    format!("btransfer,{},{},{amt},{fa},{id},{},3", g.rng.pick(&others), b.0, g.rng.range(1, 9))
+                }
+                _ => format!("ics20,{amt},{},{},{fa},{},{id},{},a2", b.1, g.rng.below(2), b.0, g.rng.range(1, 9)),
+            }
+        };
+        let first = carrier(self);
+        let second = carrier(self);
+        let n = *self.view.nonces.get(&wd).unwrap_or(&0);
+        self.kept_no += 1;
+        let k = format!("k{}", self.kept_no);
+        ops.push(format!("ctor {k} {wd} {} {second}", n + 1));
+        ops.push(format!("tx {wd} {n} {first}"));
+        ops.push(format!("exec {k}"));
     }
 
     fn packet_op(&mut self) -> String {
@@ -1593,6 +1644,8 @@ async fn run_generated(world: &mut Option<World>, trace: &mut Trace, seed: u64, 
                     i += 1;
                     if g.rng.chance(22) {
                         queue.push(g.packet_op());
+                    } else if g.rng.chance(6) {
+                        g.double_spend_ops(&mut queue);
                     } else {
                         g.tx_ops(&mut queue);
                     }
